@@ -23,6 +23,10 @@ func main() {
 		// harness rec <fn> <quick|thorough> <seed>
 		seed, _ := strconv.ParseInt(os.Args[4], 10, 64)
 		recMain(os.Args[2], os.Args[3], seed)
+	case "rec-twice":
+		// harness rec-twice <fn> <quick|thorough> <seed>
+		seed, _ := strconv.ParseInt(os.Args[4], 10, 64)
+		recTwice(os.Args[2], os.Args[3], seed)
 	case "gen":
 		// harness gen <family> <tier> <seed> <workdir> <govalid binary> <repo>
 		genMain(os.Args[2:])
